@@ -779,6 +779,13 @@ func (fr *Frame) next(s *State, g *Term, ins *ssa.Next) *Term {
 		v := c.Select(c.Select(x.mapVals(s, ks, vs), coll), k)
 		x.assumeWF(c.And(g, ok), v, mt.Elem(), s)
 		x.note("map iteration: each step yields an arbitrary present key (order and exhaustiveness not modelled)")
+		if key := mapRangeKey(ins.Block()); key != "" {
+			if n, has := s.ghost[key]; has {
+				// one more entry visited: there was one left, so fewer than 2^56 had been visited
+				x.assume(g, c.Implies(ok, c.BVCmp("bvslt", n, c.BV(1<<56, 64))))
+				s.ghost[key] = c.BVBin("bvadd", n, c.BV(1, 64))
+			}
+		}
 		var kk, vv *Term = k, v
 		if tup.At(1).Type() == tInvalid || isInvalid(tup.At(1).Type()) {
 			kk = nil
